@@ -55,6 +55,32 @@ var glyphServerWeave = []weave.PkgConfig{
 }
 
 var specs = map[string]*propSpec{
+	"C08": {
+		ID: "C08", Title: "concurrent requests do not interfere",
+		TestPkg: "cmd/glyph", HarnessDir: "C08", HarnessExtra: []string{"glyphcommon"},
+		Weave: []weave.PkgConfig{
+			{Path: "./cmd/glyph", Touch: true},
+			{Path: "./pkg/server", Touch: true},
+			{Path: "./pkg/websocket"},
+			{Path: "./pkg/interpreter", Touch: true, L1: []string{"(*Interpreter).EvaluateExpression", "(*Interpreter).ExecuteStatement"}},
+			{Path: "./pkg/vm", Touch: true, L1: []string{"(*VM).step"}},
+			{Path: "./pkg/database", Touch: true, TouchLocalMaps: true},
+			{Path: "./pkg/redis", Touch: true, TouchLocalMaps: true},
+			{Path: "./pkg/mongodb", Touch: true, TouchLocalMaps: true},
+		},
+		QuickSecs: 50, ThoroughSecs: 600, Chunk: 50,
+		Rule: "each run is one of: (S-pure) 2-8 request tasks, 1-4 requests each, on one long-lived server built by the real pipeline from a corpus of routes without providers (deep recursion, generic functions instantiated at different types, loops, strings, async blocks, query parameters, typed input, auth+ratelimit), compiled or interpreter mode, each response compared with the response the same request gets alone on a fresh server; (S-prov) the same with single-operation provider routes (mock database, Redis, MongoDB) plus atomicity invariants; (P) 2-4 tasks calling the mock providers' Go API directly, history checked for linearizability against a fresh mock replaying the candidate order; preemption at evaluation steps (EvaluateExpression, ExecuteStatement, VM.step), locks, atomics and race probes (including values handed to JSON encoders); a run is non-trivial if at least two tasks were runnable at once and a preemption happened; distinct = distinct fingerprints (schedule hash combined with workload tape) among those",
+		Components: []component{
+			{"parser, compiler, setupRoutes, registerRoute/registerCompiledRoute, createHandler (cmd/glyph)", "real-woven", "L0 + race probes"},
+			{"pkg/interpreter (one interpreter per server: evalDepth, TypeChecker.typeScope, environments)", "real-woven", "entry yields at EvaluateExpression/ExecuteStatement + race probes"},
+			{"pkg/vm (fresh VM per compiled request)", "real-woven", "entry yield at step + race probes"},
+			{"pkg/database MockDatabase, pkg/redis MockHandler, pkg/mongodb MockHandler", "real-woven", "L0 + race probes including maps held in locals"},
+			{"pkg/server middleware and JSON response encoding", "real-woven", "L0 + race probes + deep read probes before encoding"},
+			{"TCP sockets / net/http server loop", "stub", "handler invoked directly with httptest requests"},
+			{"real database / Redis / MongoDB servers", "not-run", "the in-memory mocks are what `glyph run` uses without configuration"},
+		},
+		FaultKinds: []string{"clock-jump"},
+	},
 	"C19": {
 		ID: "C19", Title: "a failed reload never takes the dev server down",
 		TestPkg: "cmd/glyph", HarnessDir: "C19", HarnessExtra: []string{"glyphcommon"},
